@@ -12,13 +12,21 @@ from xml.sax.saxutils import escape, quoteattr
 
 from run import Broken, Violation
 
-GEN = ["Omml", "PyOmml"]
+GEN = ["Omml", "PyOmml", "OmmlState"]
 RULE = ("trees = (a) committed regression witnesses, (b) every structural element x every subset of its optional "
         "children/attributes x small operand pool (exhaustive), (c) random schema-ordered trees to depth 6 with "
         "property elements interleaved and bracket-only radicals, (d) malformed variants (shuffled/duplicated/"
         "re-namespaced/stray children, m:val dropped, text under property elements). Text alphabet: every key of "
         "GREEK_TO_LATEX, brackets, braces, blanks incl. Unicode blanks, backslash, function names, non-BMP. "
-        "distinct = distinct serialised trees; non-trivial = tree has a run or a structural element")
+        "distinct = distinct serialised trees; non-trivial = tree has a run or a structural element. "
+        "HISTORIES on live Element objects: (e) every structural template with each optional child / m:val toggled IN PLACE "
+        "(Gray-code walk over all subsets) and every run text rewritten, converting the same root after each edit; "
+        "(f) random sessions over 1-3 live trees: conversions of the root or an inner element interleaved with in-place "
+        "edits (text, m:val set/deleted, foreign attributes, tails, renames, inserts, removals, moves of a live subtree, "
+        "reorderings, optional-property toggles), objects dropped and re-created (id reuse), trees with pending "
+        "radicals before other trees, the docx / pptx call sites on a persistent paragraph around the live root; each "
+        "conversion is compared with the Lean history model, with a fresh parse of a never-converted shadow tree that "
+        "received the same edits, and with a deep copy")
 ASSUMPTIONS = [
     "xml.etree.ElementTree parsing (bytes -> tree) is not modelled; the model receives (namespace flag, local name, "
     "m:val, text, children) read from the same parsed tree the real function gets",
@@ -426,6 +434,424 @@ def wrap_checks(root, latex):
     return bad
 
 
+# ----------------------------------------------------------------------------- HISTORIES on live Element objects
+# A session = some live trees + a list of explicit steps (JSON-able, no randomness at execution time):
+#   {"t": i, "op": "conv", "p": path[, "site": true]}     omml_to_latex(<element at path of live tree i>)
+#   {"t": i, "op": "text", "p": path, "s": str}            e.text = s
+#   {"t": i, "op": "val", "p": path, "v": str|None}        e.set(M+"val", v) / e.attrib.pop(M+"val")
+#   {"t": i, "op": "attr", "p": path, "k": clark-name, "v": str|None}   a foreign attribute (no input of the converter)
+#   {"t": i, "op": "tail", "p": path, "s": str}            e.tail = s (live tree only: no input of the converter)
+#   {"t": i, "op": "tag", "p": path, "tag": clark-name}    e.tag = ...
+#   {"t": i, "op": "ins", "p": path, "i": k, "xml": str}   e.insert(k, <fresh subtree>)
+#   {"t": i, "op": "del", "p": path, "i": k}               e.remove(e[k])
+#   {"t": i, "op": "move", "p": path, "i": k, "q": path2, "j": l}   the live child object moves under another parent
+#   {"t": i, "op": "perm", "p": path, "perm": [..]}        e[:] = [e[j] for j in perm]
+#   {"t": i, "op": "renew"}                                the live object is dropped and re-created from the shadow
+# Every edit is applied to the live tree (the only one the library ever sees) and to a SHADOW tree that is never
+# converted; an edit whose path leads nowhere changes nothing (so step lists can be shrunk freely).
+for _p in ("m", "w", "x"):
+    ET.register_namespace(_p, PFX[_p])
+
+
+def _at(root, path):
+    e = root
+    for i in path:
+        if not (0 <= i < len(e)):
+            return None
+        e = e[i]
+    return e
+
+
+def _apply(root, st, shadow):
+    """apply one edit step in place; returns the Lean steps it corresponds to (None: leads nowhere)"""
+    op = st["op"]
+    e = _at(root, st.get("p", []))
+    if e is None:
+        return None
+    if op == "text":
+        e.text = st["s"]
+        return [{"op": "text", "p": st["p"], "s": st["s"]}]
+    if op == "val":
+        if st["v"] is None:
+            e.attrib.pop(M + "val", None)
+        else:
+            e.set(M + "val", st["v"])
+        return [{"op": "val", "p": st["p"], "v": st["v"]}]
+    if op == "attr":
+        if st["k"] == M + "val":
+            return None
+        if st["v"] is None:
+            e.attrib.pop(st["k"], None)
+        else:
+            e.set(st["k"], st["v"])
+        return []
+    if op == "tail":
+        if not shadow and st["p"]:
+            e.tail = st["s"]
+        return []
+    if op == "tag":
+        e.tag = st["tag"]
+        return [{"op": "tag", "p": st["p"], "m": st["tag"].startswith(M), "n": local(st["tag"])}]
+    if op == "ins":
+        sub = parse(st["xml"])
+        k = min(max(st["i"], 0), len(e))
+        e.insert(k, sub)
+        return [{"op": "ins", "p": st["p"], "i": k, "x": to_json(sub)}]
+    if op == "del":
+        if not (0 <= st["i"] < len(e)):
+            return None
+        e.remove(e[st["i"]])
+        return [{"op": "del", "p": st["p"], "i": st["i"]}]
+    if op == "move":
+        if not (0 <= st["i"] < len(e)):
+            return None
+        child = e[st["i"]]
+        dst = _at(root, st["q"])
+        if dst is None or any(x is dst for x in child.iter()):
+            return None
+        sub_json = to_json(child)
+        e.remove(child)
+        # the destination path is resolved BEFORE the removal (same object), its index path may have shifted: recompute
+        qpath = _path_of(root, dst)
+        if qpath is None:
+            e.insert(st["i"], child)
+            return None
+        k = min(max(st["j"], 0), len(dst))
+        dst.insert(k, child)
+        return [{"op": "del", "p": st["p"], "i": st["i"]}, {"op": "ins", "p": qpath, "i": k, "x": sub_json}]
+    if op == "perm":
+        kids = list(e)
+        perm = [j for j in st["perm"] if 0 <= j < len(kids)]
+        if sorted(perm) != list(range(len(kids))):
+            return None
+        e[:] = [kids[j] for j in perm]
+        return [{"op": "kids", "p": st["p"], "k": [to_json(c) for c in e]}]
+    raise ValueError(op)
+
+
+def _path_of(root, target):
+    def rec(e, acc):
+        if e is target:
+            return acc
+        for i, c in enumerate(e):
+            r = rec(c, acc + [i])
+            if r is not None:
+                return r
+        return None
+    return rec(root, [])
+
+
+def _site_ok(root):
+    return root.tag == M + "oMath" and not any(c.tag in (M + "oMath", M + "oMathPara") for c in root.iter() if c is not root)
+
+
+def run_session(trees, steps):
+    """executes a session on the real code.  Returns (records, lean_requests, finals):
+    records = one dict per conversion: live output, output for a fresh parse of the shadow, output for a deep copy of
+    the live element, call-site complaints; lean_requests = one c19.hist request per tree"""
+    from sharepoint2text.parsing.extractors.ms_modern import docx_extractor as dx, pptx_extractor as px
+    live = [parse(x) for x in trees]
+    shadow = [parse(x) for x in trees]
+    paras = []
+    for r in live:      # a persistent paragraph around the live root (the extractors convert what hangs in the document)
+        p = ET.Element("{%s}p" % W_URI)
+        ET.SubElement(ET.SubElement(p, "{%s}r" % W_URI), "{%s}t" % W_URI).text = "A"
+        p.append(r)
+        paras.append(p)
+    lean = [{"op": "c19.hist", "tree": to_json(r), "steps": []} for r in live]
+    records = []
+    for n, st in enumerate(steps):
+        i = st.get("t", 0)
+        if not (0 <= i < len(live)):
+            continue
+        if st["op"] == "conv":
+            e, sh = _at(live[i], st["p"]), _at(shadow[i], st["p"])
+            if e is None or sh is None:
+                continue
+            got = impl(e)
+            shx = ET.tostring(sh, encoding="unicode")
+            ref = impl(parse(shx))
+            cp = impl(copy.deepcopy(e))
+            again = impl(e)
+            site = []
+            if st.get("site") and not st["p"] and _site_ok(live[i]) and not ref.startswith("ERR:"):
+                try:
+                    g1 = dx._extract_paragraph_content(paras[i], True)
+                    w1 = "A" + (f"${ref}$" if ref.strip() else "")
+                    if g1 != w1:
+                        site.append(f"docx paragraph text {g1!r} != {w1!r}")
+                    g2 = px._extract_formulas_from_element(paras[i])
+                    w2 = [(ref, False)] if ref.strip() else []
+                    if g2 != w2:
+                        site.append(f"pptx formulas {g2!r} != {w2!r}")
+                except Exception as ex:
+                    site.append(f"call site raised {type(ex).__name__}: {ex}")
+            lean[i]["steps"].append({"op": "conv", "p": st["p"]})
+            records.append({"step": n, "t": i, "p": st["p"], "got": got, "fresh": ref, "copy": cp, "again": again,
+                            "site": site, "xml": shx})
+        elif st["op"] == "renew":
+            x = ET.tostring(shadow[i], encoding="unicode")
+            paras[i].remove(live[i])
+            live[i] = None          # drop the object first: the new one may get its address
+            live[i] = parse(x)
+            paras[i].append(live[i])
+        else:
+            a = _apply(live[i], st, False)
+            b = _apply(shadow[i], st, True)
+            if (a is None) != (b is None):
+                raise RuntimeError("live and shadow tree diverged structurally at step %d" % n)
+            if a:
+                lean[i]["steps"] += a
+    finals = [to_json(r) for r in live]
+    return records, lean, finals
+
+
+def history_oracle(trees, steps):
+    """violations of the property statement along a session on the real code: [(key, what)]"""
+    try:
+        records, _, _ = run_session(trees, steps)
+    except ET.ParseError:
+        return []
+    out = []
+    for r in records:
+        where = f"step {r['step']} (conversion of the element at path {r['p']} of live tree {r['t']})"
+        if r["got"].startswith("ERR:") and not r["fresh"].startswith("ERR:"):
+            out.append(("history", f"{where}: raised {r['got'][4:]} although a fresh copy of the tree converts to {r['fresh']!r}"))
+        elif r["got"] != r["fresh"]:
+            out.append(("history", f"{where}: the live object converts to {r['got']!r} but a fresh copy of the tree as it is now "
+                                   f"converts to {r['fresh']!r} (tree: {r['xml'].replace(' ' + NSDECL, '')[:300]})"))
+        elif r["copy"] != r["fresh"]:
+            out.append(("history", f"{where}: a deep copy of the live object converts to {r['copy']!r} but a fresh parse of the same tree "
+                                   f"to {r['fresh']!r}"))
+        elif r["again"] != r["got"]:
+            out.append(("history", f"{where}: converting the untouched object twice gives {r['got']!r} then {r['again']!r}"))
+        elif r["site"]:
+            out.append(("history", f"{where}: " + "; ".join(r["site"])))
+        if out:
+            break
+    return out
+
+
+# ---- generators of sessions
+def _opt_children(tag):
+    """(optional child name, xml) in schema order for the in-place toggle walk"""
+    def A(name, t):
+        return (name, f'<m:{name} {NSDECL}><m:r><m:t>{escape(t)}</m:t></m:r></m:{name}>')
+    table = {
+        "f": [("fPr", f'<m:fPr {NSDECL}><m:type m:val="bar"/></m:fPr>'), A("num", "a"), A("den", "β")],
+        "sSup": [("sSupPr", f'<m:sSupPr {NSDECL}><m:ctrlPr/></m:sSupPr>'), A("e", "x"), A("sup", "2")],
+        "sSub": [A("e", "x"), A("sub", "i")],
+        "sSubSup": [A("e", "x"), A("sub", "i"), A("sup", "∞")],
+        "rad": [("radPr", f'<m:radPr {NSDECL}><m:degHide m:val="1"/></m:radPr>'), A("deg", "3"), A("e", "y")],
+        "func": [("funcPr", f'<m:funcPr {NSDECL}/>'), A("fName", "sin"), A("e", "x")],
+        "bar": [("barPr", f'<m:barPr {NSDECL}><m:pos m:val="top"/></m:barPr>'), A("e", "z")],
+        "nary": [("naryPr", f'<m:naryPr {NSDECL}><m:chr m:val="∫"/></m:naryPr>'), A("sub", "i"), A("sup", "n"), A("e", "x")],
+        "acc": [("accPr", f'<m:accPr {NSDECL}><m:chr m:val="̃"/></m:accPr>'), A("e", "x")],
+        "d": [("dPr", f'<m:dPr {NSDECL}><m:begChr m:val="["/><m:endChr m:val="|"/></m:dPr>'), A("e", "p"), A("e", "q")],
+        "m": [("mPr", f'<m:mPr {NSDECL}/>'), ("mr", f'<m:mr {NSDECL}><m:e><m:r><m:t>1</m:t></m:r></m:e><m:e><m:r><m:t>2</m:t></m:r></m:e></m:mr>'),
+              ("mr", f'<m:mr {NSDECL}><m:e><m:r><m:t>3</m:t></m:r></m:e></m:mr>')],
+    }
+    return table[tag]
+
+
+TEMPLATE_TAGS = ["f", "sSup", "sSub", "sSubSup", "rad", "func", "bar", "nary", "acc", "d", "m"]
+
+
+def template_sessions():
+    """every structural element as ONE live object: each optional child toggled in place along a Gray-code walk over all
+    subsets (converted after every toggle), then the m:val of its property children set / changed / deleted, then every
+    run text rewritten"""
+    out = []
+    for tag in TEMPLATE_TAGS:
+        opts = _opt_children(tag)
+        k = len(opts)
+        tree = f'<m:oMath {NSDECL}><m:{tag}>' + "".join(x.replace(" " + NSDECL, "") for _, x in opts) + \
+               f'</m:{tag}><m:r><m:t>w</m:t></m:r></m:oMath>'
+        steps = [{"t": 0, "op": "conv", "p": [], "site": True}]
+        present = [True] * k
+        for g in range(1, 2 ** k + 1):
+            bit = (g & -g).bit_length() - 1
+            if bit >= k:
+                bit = k - 1
+            pos = sum(present[:bit])
+            if present[bit]:
+                steps.append({"t": 0, "op": "del", "p": [0], "i": pos})
+            else:
+                steps.append({"t": 0, "op": "ins", "p": [0], "i": pos, "xml": opts[bit][1]})
+            present[bit] = not present[bit]
+            steps.append({"t": 0, "op": "conv", "p": [], "site": g % 3 == 0})
+        # back to the full element, then attribute and text edits
+        for bit in range(k):
+            if not present[bit]:
+                steps.append({"t": 0, "op": "ins", "p": [0], "i": sum(present[:bit]), "xml": opts[bit][1]})
+                present[bit] = True
+        steps.append({"t": 0, "op": "conv", "p": []})
+        if tag in ("nary", "acc", "d"):
+            vals = {"nary": ["∑", "∏", None, "α", ""], "acc": ["̂", "⃗", None, "~"], "d": ["(", "⟨", None, ""]}[tag]
+            n_pr = 2 if tag == "d" else 1
+            for j in range(n_pr):
+                for v in vals:
+                    steps.append({"t": 0, "op": "val", "p": [0, 0, j], "v": v})
+                    steps.append({"t": 0, "op": "conv", "p": []})
+                steps.append({"t": 0, "op": "del", "p": [0, 0], "i": 0})
+                steps.append({"t": 0, "op": "conv", "p": [], "site": True})
+        root = parse(tree)
+        paths = [_path_of(root, e) for e in root.iter() if local(e.tag) == "t"]
+        for n, pth in enumerate(paths):
+            steps.append({"t": 0, "op": "text", "p": pth, "s": "α≤" + "uvw"[n % 3]})
+            steps.append({"t": 0, "op": "conv", "p": []})
+            steps.append({"t": 0, "op": "conv", "p": pth[:1]})
+        out.append(("hist/template/" + tag, [tree], steps))
+    return out
+
+
+def _small_subtree(rng):
+    g = Gen(rng, braces=False, brad=0.06 if rng.random() < 0.3 else 0.0)
+    r = rng.random()
+    if r < 0.35:
+        return g.run()
+    if r < 0.55:
+        name, inner = rng.choice([("naryPr", [N("chr", attrs={"m:val": rng.choice(OPS[:8])})]), ("accPr", [N("chr", attrs={"m:val": rng.choice(ACCENTS[:6])})]),
+                                  ("dPr", [N("begChr", attrs={"m:val": rng.choice(DELIMS[:7])}), N("endChr", attrs={"m:val": rng.choice(DELIMS[:7])})]),
+                                  ("chr", []), ("rPr", []), ("ctrlPr", []), ("mr", [N("e", [g.run()])])])
+        n = N(name, inner)
+        if name == "chr":
+            n.attrs["m:val"] = rng.choice(OPS[:8] + ACCENTS[:6])
+        return n
+    if r < 0.7:
+        return g.arg(rng.choice(["e", "sub", "sup", "num", "den", "deg", "fName", "lim"]), 1)
+    return g.item(rng.choice([1, 1, 2]))
+
+
+def random_session(rng):
+    n_trees = rng.choice([1, 1, 1, 2, 2, 3])
+    trees = []
+    for _ in range(n_trees):
+        g = Gen(rng, braces=rng.random() < 0.15, brad=0.06 if rng.random() < 0.35 else 0.0)
+        t = g.tree(rng.choice([1, 2, 2, 3]))
+        if rng.random() < 0.2:      # unclosed bracket-only radicals: something is still pending when the call returns
+            for _ in range(rng.choice([1, 1, 2, 3])):
+                t.kids.append(N("rad", [N("e", [N("r", [N("t", text=rng.choice("(["))])])]))
+        if rng.random() < 0.25:
+            t = mutate(rng, t)
+        trees.append(t.xml(top=True))
+    mirror = [parse(x) for x in trees]     # generator-side copy, to choose valid paths
+    steps = [{"t": i, "op": "conv", "p": [], "site": rng.random() < 0.3} for i in range(n_trees)]
+    for _ in range(rng.randint(3, 10)):
+        i = rng.randrange(n_trees)
+        root = mirror[i]
+        nodes = list(root.iter())
+        e = rng.choice(nodes)
+        pth = _path_of(root, e)
+        k = rng.randrange(13)
+        st = None
+        ts = [x for x in nodes if local(x.tag) == "t"]
+        if k <= 2 and ts:
+            st = {"t": i, "op": "text", "p": _path_of(root, rng.choice(ts)), "s": rand_text(rng, braces=False)}
+        elif k == 3:
+            cands = [x for x in nodes if local(x.tag) in ("chr", "begChr", "endChr")] or nodes
+            st = {"t": i, "op": "val", "p": _path_of(root, rng.choice(cands)), "v": rng.choice([None, None] + OPS[:8] + ACCENTS[:5] + DELIMS[:6])}
+        elif k == 4:
+            st = {"t": i, "op": "attr", "p": pth, "k": rng.choice(["val", "{%s}val" % W_URI, "{%s}latex" % X_URI, "latex", "{%s}cache" % M_URI]),
+                  "v": rng.choice([None, "x^{2}", "∫", "1"])}
+        elif k == 5:
+            st = {"t": i, "op": "tail", "p": pth, "s": rng.choice(["", " ", "tail", "\n  "])}
+        elif k == 6:
+            nm = rng.choice(["t", "e", "r", "f", "rad", "nary", "d", "m", "mr", "func", "acc", "bar", "sSup", "sSub", "num", "sub", "sup", "box", "rPr", "oMath"])
+            st = {"t": i, "op": "tag", "p": pth, "tag": rng.choice([M, M, M, "{%s}" % W_URI, ""]) + nm}
+        elif k in (7, 8):
+            st = {"t": i, "op": "ins", "p": pth, "i": rng.randint(0, len(e) + 1), "xml": _small_subtree(rng).xml(top=True)}
+        elif k == 9 and len(e):
+            st = {"t": i, "op": "del", "p": pth, "i": rng.randrange(len(e))}
+        elif k == 10 and len(e):
+            dst = rng.choice(nodes)
+            st = {"t": i, "op": "move", "p": pth, "i": rng.randrange(len(e)), "q": _path_of(root, dst), "j": rng.randint(0, len(dst))}
+        elif k == 11 and len(e) > 1:
+            perm = list(range(len(e)))
+            rng.shuffle(perm)
+            st = {"t": i, "op": "perm", "p": pth, "perm": perm}
+        elif k == 12:
+            st = {"t": i, "op": "renew"}
+        if st is None:
+            continue
+        if st["op"] != "renew":
+            try:
+                if _apply(root, st, True) is None:
+                    continue
+            except ET.ParseError:
+                continue
+        steps.append(st)
+        # convert: usually the root of the edited tree, sometimes an inner element or another tree
+        j = i if rng.random() < 0.8 else rng.randrange(n_trees)
+        r2 = mirror[j]
+        tgt = [] if rng.random() < 0.75 else _path_of(r2, rng.choice(list(r2.iter())))
+        steps.append({"t": j, "op": "conv", "p": tgt, "site": rng.random() < 0.25})
+    return trees, steps
+
+
+def history_sessions(ctx, n=None):
+    out = list(template_sessions())
+    for _ in range(ctx.n(300, 6000) if n is None else n):
+        trees, steps = random_session(ctx.rng)
+        out.append(("hist/random/%d-trees" % len(trees), trees, steps))
+    return out
+
+
+def history_correspondence(ctx, broken):
+    """the Lean history model (`S2T.OmmlHist.fresh (omml tables)`, edits by `editAt`) against conversions of LIVE objects"""
+    sessions = history_sessions(ctx)
+    reqs, keep = [], []
+    for grp, trees, steps in sessions:
+        try:
+            records, lean, finals = run_session(trees, steps)
+        except ET.ParseError as e:
+            broken.append(Broken("correspondence", "generator-xml", repr(e), case={"history": {"trees": trees, "steps": steps}}))
+            continue
+        keep.append((grp, trees, steps, records, finals, len(reqs), len(lean)))
+        reqs += lean
+    outs = ctx.drive(reqs)
+    mism = 0
+    for grp, trees, steps, records, finals, off, n in keep:
+        ctx.case(("hist", trees, steps))
+        ctx.count(grp.rsplit("/", 1)[0] if grp.startswith("hist/template") else grp)
+        case = {"history": {"trees": trees, "steps": steps}}
+        per_tree = {}
+        for r in records:
+            per_tree.setdefault(r["t"], []).append(r)
+        bad = None
+        for i in range(n):
+            o = outs[off + i]
+            if "drv_error" in o:
+                bad = ("driver", o["drv_error"])
+                break
+            got = [r["got"] for r in per_tree.get(i, [])]
+            if got != o["outs"]:
+                k = next((j for j, (a, b) in enumerate(zip(got, o["outs"])) if a != b), min(len(got), len(o["outs"])))
+                bad = ("c19.hist", f"live tree {i}, conversion #{k}: impl={got[k:k+1]!r} model={o['outs'][k:k+1]!r}")
+                break
+            if o["final"] != finals[i]:
+                bad = ("c19.hist:final-tree", f"live tree {i} after the history is not the tree the edits produce in the model "
+                                              f"(the conversion modified its argument?)")
+                break
+        if bad is None:
+            for r in records:
+                if r["got"] != r["fresh"] or r["copy"] != r["fresh"] or r["again"] != r["got"] or r["site"]:
+                    bad = ("history-fresh-copy", f"step {r['step']}: live={r['got']!r} fresh={r['fresh']!r} copy={r['copy']!r} "
+                                                 f"again={r['again']!r} site={r['site']!r}")
+                    break
+        if bad is not None:
+            mism += 1
+            if mism <= 10:
+                broken.append(Broken("correspondence", bad[0], bad[1], case=case))
+    ctx.coverage["history_sessions"] = len(keep)
+    ctx.coverage["history_conversions"] = sum(len(k[3]) for k in keep)
+    ctx.coverage["history_mismatches"] = mism
+    if keep:
+        grp, trees, steps, records, finals, off, n = keep[len(keep) // 2]
+        ctx.sample({"group": grp, "trees": [t.replace(" " + NSDECL, "")[:200] for t in trees], "steps": steps[:8],
+                    "outputs": [r["got"][:80] for r in records[:6]]})
+
+
 def nows(s):
     return "".join(c for c in s if not c.isspace())
 
@@ -497,6 +923,8 @@ def correspondence(ctx):
             got = f"ERR:{type(e).__name__}"
         if o.get("out") != got:
             broken.append(Broken("correspondence", "c19.greek", f"impl={got!r} model={o.get('out')!r}", case={"s": s}))
+    # conversion histories on live objects
+    history_correspondence(ctx, broken)
     # None input (documented: empty string)
     try:
         if mod.omml_to_latex(None) != "":
@@ -769,7 +1197,131 @@ def obligations(ctx):
     return broken
 
 
+# A change that leaks state ACROSS objects (a scratch list that is not reset, a table keyed by recycled ids) pollutes
+# the very process that searches: every later comparison differs, and a witness cut out of that process does not fail
+# when replayed alone.  So the history search runs in FRESH interpreters: one child walks through the sessions in order
+# and reports the first that fails; the sessions before it are kept only as far as they are needed (ddmin, each trial
+# in a fresh interpreter), then single steps are removed.  What is reported fails from a clean start — the replay.
+_CHILD = (
+    "import sys, json\n"
+    "sys.path.insert(0, %r); sys.path.insert(0, %r)\n"
+    "import logging, warnings; logging.disable(logging.CRITICAL); warnings.filterwarnings('ignore')\n"
+    "import props.c19 as m\n"
+    "req = json.load(sys.stdin)\n"
+    "json.dump(getattr(m, req['f'])(*req['a']), sys.stdout)\n"
+)
+
+
+def _isolated(func, *args, timeout=300):
+    """props.c19.<func>(*args) in a fresh interpreter (clean module state of the library)"""
+    import json
+    import os
+    import subprocess
+    import sys
+    from run import HERE, REPO, Infra
+    try:
+        p = subprocess.run([sys.executable, "-c", _CHILD % (HERE, REPO)], input=json.dumps({"f": func, "a": list(args)}).encode(),
+                           capture_output=True, timeout=timeout, env=dict(os.environ, S2T_REPO=REPO))
+    except subprocess.TimeoutExpired as e:
+        raise Infra(f"isolated {func} timed out: {e}")
+    if p.returncode != 0:
+        raise Infra(f"isolated {func} failed: {p.stderr[-400:]!r}")
+    return json.loads(p.stdout.decode())
+
+
+def first_failing_session(sessions):
+    """(child side) index and violation of the first session that violates the property when the sessions are run one
+    after the other in this process, or None"""
+    for k, (trees, steps) in enumerate(sessions):
+        vs = history_oracle(trees, steps)
+        if vs:
+            return [k, vs[0]]
+    return None
+
+
+def merge_sessions(sessions):
+    trees, steps = [], []
+    for t, s in sessions:
+        off = len(trees)
+        trees += t
+        steps += [dict(x, t=x.get("t", 0) + off) for x in s]
+    return trees, steps
+
+
+def oracle_list(xml, conformant):
+    return [list(v) for v in oracle(xml, conformant)]
+
+
+def search_histories(ctx, broken):
+    sess = []
+    for b in broken:
+        c = b.case or {}
+        if "history" in c:
+            sess.append([c["history"]["trees"], c["history"]["steps"]])
+    sess += [[t, s] for _, t, s in history_sessions(ctx, n=ctx.n(600, 6000))]
+    hit = _isolated("first_failing_session", sess, timeout=900)
+    if not hit:
+        return []
+    k = hit[0]
+    budget = [120]
+
+    def fails(idx):
+        if budget[0] <= 0:
+            return False
+        budget[0] -= 1
+        t, s = merge_sessions([sess[i] for i in idx])
+        return bool(_isolated("history_oracle", t, s))
+
+    keep = []
+    if not fails([k]):      # the failing session needs what earlier ones left behind: ddmin over them
+        keep, n = list(range(k)), 2
+        while keep:
+            chunk = -(-len(keep) // n)
+            reduced = False
+            for i in range(0, len(keep), chunk):
+                cand = keep[:i] + keep[i + chunk:]
+                if fails(cand + [k]):
+                    keep, n, reduced = cand, max(n - 1, 2), True
+                    break
+            if not reduced:
+                if chunk <= 1:
+                    break
+                n = min(n * 2, len(keep))
+    trees, steps = merge_sessions([sess[i] for i in keep + [k]])
+    # remove single steps (fresh interpreter per trial), then unused trees
+    changed = True
+    while changed and len(steps) > 1 and budget[0] > 0:
+        changed = False
+        for j in range(len(steps) - 1, -1, -1):
+            cand = steps[:j] + steps[j + 1:]
+            if budget[0] <= 0:
+                break
+            budget[0] -= 1
+            if _isolated("history_oracle", trees, cand):
+                steps, changed = cand, True
+    used = sorted({x.get("t", 0) for x in steps})
+    if len(used) < len(trees):
+        ct, cs = [trees[i] for i in used], [dict(x, t=used.index(x.get("t", 0))) for x in steps]
+        if _isolated("history_oracle", ct, cs):
+            trees, steps = ct, cs
+    vs = _isolated("history_oracle", trees, steps)
+    if not vs:
+        return []
+    key, what = vs[0]
+    return [Violation(key, what, {"history": {"trees": trees, "steps": steps}})]
+
+
 def search(ctx, broken):
+    hv = search_histories(ctx, broken)
+    tv = search_trees(ctx, broken)
+    if hv:
+        # state leaked between conversions also disturbs the single-tree oracle in THIS process: keep only the tree
+        # witnesses that fail from a clean start (what `--replay` will do)
+        tv = [v for v in tv if _isolated("oracle_list", v.replay["xml"], v.replay["conformant"])]
+    return hv + tv
+
+
+def search_trees(ctx, broken):
     cases = []
     for b in broken:
         c = b.case or {}
@@ -794,6 +1346,9 @@ def search(ctx, broken):
 
 def replay(ctx, payload):
     rep = payload.get("replay", {})
+    if "history" in rep:
+        vs = history_oracle(rep["history"]["trees"], rep["history"]["steps"])
+        return (not vs), "; ".join(w for _, w in vs) or "every conversion of the recorded history equals the conversion of a fresh copy"
     if "xml" not in rep:
         return False, "replay names a broken obligation, not an input: " + payload.get("what", "")
     vs = oracle(rep["xml"], bool(rep.get("conformant")))
